@@ -29,6 +29,7 @@ void h_connect(void)
   Impl impl; SyncConnectOp wop, oop, fresh; iora_engine eng; Impl *self = &impl;
   SessionId W = nondet_u64();
   wire(&impl, &wop, &oop, &fresh, &eng, W);
+  G_abandoned_at_unlock = 0;
   iora_host host; uint16_t port; int tls; iora_time timeout;
   G_on_io_thread = nondet_bool(); G_conn_sid = nondet_u64(); G_conn_fails = nondet_bool(); G_conn_err = nondet_int();
   G_sid_is_w = (G_conn_sid == W);
@@ -93,6 +94,10 @@ void h_connect(void)
   /* no connection left behind */
   __CPROVER_assert((eng.close_calls == 1) == timed_out && eng.close_calls <= 1, "L1 engine->close() is issued exactly on the timeout path, once");
   __CPROVER_assert(eng.close_calls == 0 || (eng.closed_sid == sid && !eng.sync_held_at_close), "L2 ... for the session id engine->connect() returned, with syncMutex released");
+  /* history link (monitor invariant J, see h_onconnect J1): the waiter record is marked abandoned - under the lock - before connectSync releases the
+   * lock to issue engine->close(sid); it is never marked on any other path */
+  __CPROVER_assert(eng.close_calls == 0 || (G_abandoned_at_unlock && fresh.abandoned), "J0 timeout path: the record is marked abandoned before the lock is released for engine->close()");
+  __CPROVER_assert(timed_out || !fresh.abandoned, "J0b the record is marked abandoned only on the timeout path");
   /* registration */
   if (G_sid_is_w)
   {
